@@ -1,4 +1,5 @@
 import Mathlib.Data.List.Nodup
+import Mathlib.Data.List.Perm.Subperm
 import Chain33Model.Model.C23
 import Chain33Model.Proofs.C21Inv
 /-!
@@ -21,9 +22,9 @@ theorem collect_sublist (keep : Item → Bool) (count : Nat) :
     · simp only [hk, if_true]
       by_cases he : (decide (count > 0) && n + 1 == count) = true
       · simp only [he, if_true, List.map_cons]
-        exact List.Sublist.cons₂ _ (List.nil_sublist _)
+        exact List.Sublist.cons_cons _ (List.nil_sublist _)
       · simp only [he, Bool.false_eq_true, if_false, List.map_cons]
-        exact List.Sublist.cons₂ _ (ih (n + 1))
+        exact List.Sublist.cons_cons _ (ih (n + 1))
     · simp only [hk, Bool.false_eq_true, if_false, List.map_cons]
       exact List.Sublist.cons _ (ih n)
 
@@ -148,6 +149,62 @@ theorem consec_nodup : ∀ (l : List Int) (n : Int), consecFrom n l → l.Nodup 
 
 theorem chain_nodup (l : List Tx) (fuel : Nat) (n : Int) : (chain l fuel n).Nodup :=
   List.Nodup.of_map _ (consec_nodup _ n (chain_consec l fuel n))
+
+/-! ### a chain ends at the first missing nonce -/
+
+theorem lastWithNonce_none (l : List Tx) (n : Int) (h : lastWithNonce l n = none) : ∀ t ∈ l, t.nonce ≠ n := by
+  unfold lastWithNonce at h
+  rw [List.find?_eq_none] at h
+  intro t ht
+  have := h t (List.mem_reverse.mpr ht)
+  simpa using this
+
+/-- a chain stops because the fuel ran out or because the next nonce is missing -/
+theorem chain_stop (l : List Tx) : ∀ (fuel : Nat) (n : Int),
+    (chain l fuel n).length = fuel ∨ lastWithNonce l (n + (chain l fuel n).length) = none := by
+  intro fuel
+  induction fuel with
+  | zero => intro n; left; simp [chain]
+  | succ k ih =>
+    intro n
+    unfold chain
+    cases hl : lastWithNonce l n with
+    | none => right; simpa using hl
+    | some t0 =>
+      simp only [List.length_cons]
+      rcases ih (n + 1) with h | h
+      · left; omega
+      · right
+        have : n + ((chain l k (n + 1)).length + 1 : Nat) = n + 1 + (chain l k (n + 1)).length := by
+          push_cast; omega
+        rw [this]; exact h
+
+theorem consec_lt : ∀ (l : List Int) (n : Int), consecFrom n l → ∀ x ∈ l, x < n + l.length := by
+  intro l
+  induction l with
+  | nil => intro n _ x hx; cases hx
+  | cons y ys ih =>
+    intro n h x hx
+    obtain ⟨h1, h2⟩ := h
+    simp only [List.length_cons]
+    rcases List.mem_cons.mp hx with rfl | hx'
+    · push_cast; omega
+    · have := ih (n + 1) h2 x hx'; push_cast; omega
+
+/-- the chain of a sender ends at the first missing nonce -/
+theorem chain_gap (l : List Tx) (n : Int) :
+    ∀ t ∈ l, t.nonce ≠ n + (chain l l.length n).length := by
+  rcases chain_stop l l.length n with h | h
+  · -- fuel exhausted: the chain is a permutation of `l`, all of whose nonces are below the bound
+    have hsub : (chain l l.length n) ⊆ l := fun t ht => mem_chain l _ _ t ht
+    have hperm : (chain l l.length n).Perm l :=
+      (List.subperm_of_subset (chain_nodup l _ n) hsub).perm_of_length_le (by omega)
+    intro t ht
+    have htc : t ∈ chain l l.length n := hperm.mem_iff.mpr ht
+    have := consec_lt _ n (chain_consec l l.length n) t.nonce (List.mem_map_of_mem htc)
+    simp only [List.length_map] at this
+    omega
+  · exact lastWithNonce_none l _ h
 
 /-! ### sortEthSignTyTx -/
 
@@ -288,6 +345,27 @@ theorem sortEth_eth (order : List Nat) (hnd : order.Nodup) (cur : Nat → Int) (
     split
     · exact chain_consec _ _ _
     · simp [consecFrom]
+
+/-- the returned entries of sender `s` (when the map iteration reaches `s`) are `s`'s whole chain -/
+theorem sortEth_sender_eq (order : List Nat) (hnd : order.Nodup) (cur : Nat → Int) (txs : List Tx) (s : Nat)
+    (hs : s ∈ order) (hany : ∃ t ∈ txs, t.esort = true) :
+    (sortEth order cur txs).filter (fun t => t.esort && t.snd == s) = chainOf cur txs s := by
+  rw [sortEth_eq]
+  split
+  · rename_i h
+    have hall := filter_all_of_length _ txs (beq_iff_eq.mp h)
+    obtain ⟨t, ht, he⟩ := hany
+    rw [← hall] at ht
+    have := (List.mem_filter.mp ht).2
+    simp [he] at this
+  · rw [List.filter_append]
+    have h1 : (txs.filter (fun t => !t.esort)).filter (fun t => t.esort && t.snd == s) = [] := by
+      rw [List.filter_eq_nil_iff]
+      intro t ht
+      have := (List.mem_filter.mp ht).2
+      cases he : t.esort <;> simp [he] at this ⊢
+    rw [h1, List.nil_append, flatMap_filter_sender cur txs s order hnd]
+    simp [hs]
 
 theorem flatMap_chain_len (cur : Nat → Int) :
     ∀ (order : List Nat), order.Nodup → ∀ (txs : List Tx),
